@@ -101,8 +101,9 @@ where
             }
 
             // If we've got an error buffered already, we need to write it to the client
-            // before we can do anything else.
-            if let Some((maybe_err, mut si)) = buffered_err.take() {
+            // before we can do anything else. The rejection (error frame, then close) is driven
+            // to completion here, so the slot is free again when the next replier is rejected.
+            while let Some((maybe_err, mut si)) = buffered_err.take() {
                 if let Some(err) = maybe_err {
                     match si.poll_ready_unpin(cx) {
                         Poll::Ready(Ok(_)) => {
